@@ -2,7 +2,7 @@
 """Regenerates section 10 of DESIGN.md (seeded changes x checks) from /verif/seeded/*/meta.json."""
 import json, os
 rows = []
-for d in sorted(x for x in os.listdir('/verif/seeded') if os.path.isdir(f'/verif/seeded/{x}')):
+for d in sorted(x for x in os.listdir('/verif/seeded') if os.path.exists(f'/verif/seeded/{x}/meta.json')):
     rows.append((d, json.load(open(f'/verif/seeded/{d}/meta.json'))))
 def short(s, n=210):
     s = s.replace('|', '/').replace('\n', ' ')
